@@ -12,7 +12,7 @@ import traceback
 VERIF = os.path.dirname(os.path.dirname(os.path.abspath(__file__)))
 GEN = os.path.join(VERIF, 'coq', 'Gen')
 TRANSLATORS = ['tables', 'chordre', 'defaults', 'evaluate', 'writesites', 'chordrules', 'scalarfuncs', 'vecfuncs', 'wrapfuncs',
-               'validfuncs', 'chordparse', 'wrapfuncs2', 'patternfuncs', 'beatfuncs', 'hierfuncs', 'matchfuncs', 'notefuncs', 'intervalfuncs']
+               'validfuncs', 'chordparse', 'wrapfuncs2', 'patternfuncs', 'beatfuncs', 'hierfuncs', 'matchfuncs', 'notefuncs', 'intervalfuncs', 'framefuncs', 'iofuncs', 'corefuncs']
 
 
 class TranslationError(Exception):
